@@ -14,7 +14,8 @@
                       os.chmod(tmp, mode) ; shutil.move(tmp, output) = os.rename, and when that raises
                       OSError the library's fallback copy2 + unlink (open(dst,'wb') truncates the target,
                       data copy, copystat, unlink) ; `except BaseException:` os.remove(tmp) ; raise.
-   Every operation may succeed, raise (at most MaxRaise times per run), or the process may die there;
+   Every operation may succeed, raise (at most MaxRaise times per run; an OSError, a KeyboardInterrupt or a
+   SystemExit — the handler in the code is `except BaseException`), or the process may die there;
    a write or a copy may stop after part of the data.  `plan` records the deviations from success; each
    terminal state is emitted with its plan so that the harness can replay it by fault injection.          *)
 EXTENDS AtomicWriteOps, TLC, Json
@@ -24,7 +25,8 @@ CONSTANTS NFiles,        \* files handled by one call
           SuffixChoices, \* subset of BOOLEAN: fixed_file_suffix given or not
           MaxRaise,      \* bound on raised faults per run
           AllowDie,      \* process death modelled
-          MoveFallback   \* TRUE: shutil.move as it is; FALSE: a rename that fails just fails (os.replace)
+          MoveFallback,  \* TRUE: shutil.move as it is; FALSE: a rename that fails just fails (os.replace)
+          ExcKinds       \* classes of raised exceptions, subset of {"os", "kbd", "exit"}
 
 VARIABLES fs, cur, pc, saved, named, synced, nraise, plan, status, rmfail, emitted,
           suffix, skip           \* the scenario (chosen in Init, never changed)
@@ -47,7 +49,12 @@ Init == /\ suffix \in SuffixChoices /\ skip \in SkipChoices
 Running(op) == status = "run" /\ pc = op
 Dev(op, what) == plan' = Append(plan, <<cur, op, what>>)
 CanRaise == nraise < MaxRaise
-Raised(op, what) == CanRaise /\ nraise' = nraise + 1 /\ Dev(op, what)
+\* A raised fault carries the class of the exception: "os" = OSError (what the library calls raise by themselves),
+\* "kbd" = KeyboardInterrupt (Ctrl-C delivered while the call runs), "exit" = SystemExit (a SIGTERM handler / sys.exit).
+\* The last two are BaseExceptions that are not Exceptions.  The plan tags them as "<what>:kbd" / "<what>:exit".
+Tag(what, kd) == IF kd = "os" THEN what ELSE what \o ":" \o kd
+RaisedIn(op, what, kinds) == CanRaise /\ nraise' = nraise + 1 /\ \E kd \in kinds : Dev(op, Tag(what, kd))
+Raised(op, what) == RaisedIn(op, what, ExcKinds)
 Goto(p) == pc' = p
 \* the successor of an operation on the success path is read off AtomicWriteOps!MainOps / FallbackOps
 PosIn(seq, op) == CHOOSE i \in 1..Len(seq) : seq[i] = op
@@ -101,8 +108,10 @@ Chmod == /\ Running("chmod") /\ UNCHANGED <<cur, saved, named, synced, rmfail, e
             \/ Raised("chmod", "raise") /\ fs' = fs /\ ToExcept
 Rename == /\ Running("rename") /\ UNCHANGED <<cur, saved, named, synced, rmfail, emitted>>
           /\ \/ fs' = [fs EXCEPT ![Out(cur)] = fs[Tmp(cur)], ![Tmp(cur)] = Absent] /\ Goto(After("rename")) /\ UNCHANGED <<nraise, plan, status>>
-             \/ Raised("rename", "raise") /\ fs' = fs
+             \* shutil.move catches OSError only: any other exception leaves it at once
+             \/ RaisedIn("rename", "raise", ExcKinds \cap {"os"}) /\ fs' = fs
                 /\ IF MoveFallback THEN Goto(FallbackOps[1]) /\ status' = status ELSE ToExcept
+             \/ RaisedIn("rename", "raise", ExcKinds \ {"os"}) /\ fs' = fs /\ ToExcept
 \* shutil.move fallback: copy2(tmp, output) then unlink(tmp)
 COpen == /\ Running("copen") /\ UNCHANGED <<cur, saved, named, synced, rmfail, emitted>>
          /\ \/ fs' = [fs EXCEPT ![Out(cur)] = [body |-> "empty", mode |-> IF fs[Out(cur)] = Absent THEN DefMode ELSE fs[Out(cur)].mode]]
